@@ -513,3 +513,64 @@ def allocfail_fetch(case, res):
         S.shutdown()
         return [op, t, "alloc", nth, said]
     sim_case(case, res, body)
+
+
+# ----------------------------------------------------------------------
+# single system call failure enumeration over the same corpus
+
+SYSCALLS = {
+    # call -> errnos that call may legitimately report now and then
+    "read": ["EINTR", "ENOBUFS", "ENOMEM", "ECONNRESET", "ETIMEDOUT"],
+    "writev": ["ENOBUFS", "ENOMEM", "EINTR", "ECONNRESET", "EPIPE"],
+    "accept": ["EMFILE", "ENFILE", "ENOBUFS", "ENOMEM", "EINTR", "EPROTO"],      # (ECONNABORTED removes the connection: the faulty-bus histories of C11 do that)
+    "fcntl": ["EBADF", "EINVAL"],
+    "setsockopt": ["ENOBUFS", "ENOPROTOOPT", "EINVAL"],
+    "getsockname": ["ENOBUFS"],
+    "epoll_ctl": ["ENOMEM", "ENOSPC"],
+    "timerfd_create": ["EMFILE", "ENFILE", "ENOMEM"],
+    "timerfd_settime": ["EINVAL", "EBADF", "ENOMEM"],
+}
+
+
+@scenario("sysfail")
+def sysfail(case, res):
+    """one scripted session in which the n-th call of one system call fails once: no crash or sanitizer report, at most one response
+    per request, only connections involved in the failing call (its descriptor argument, the connection being processed) may be
+    dropped, a fresh connection is served afterwards, everything is released in the end"""
+    import errno as E
+    prm = case["params"]
+    name, call, nth, en = prm["script"], prm.get("call"), prm.get("nth"), prm.get("errno")
+
+    def body(S, rng):
+        S.check_m = True
+        before = S.sim.stat()["injects"]
+        if call is not None:
+            S.alloc_faults = True           # (same reading as for a failed allocation: at most one response, effects not predicted)
+            S.desync = True
+            S.strict_close = False
+            S.inject_active = True
+            S.sys_faults = True
+            S.sim.inject(call, nth, getattr(E, en))
+        SCRIPTS[name](S)
+        st = S.sim.stat()
+        if call is None:
+            res.call_counts = {k: st["injects"][k][0] - before[k][0] for k in SYSCALLS}
+            st = S.close_all()
+            S.check_idle_baseline(st)
+            S.shutdown()
+            return [name, "counting run", res.call_counts]
+        S.sim.inject(call, 0, 0)
+        fired = st["injects"][call][1] > before[call][1]
+        S.stats["sysfail_fired" if fired else "sysfail_not_reached"] += 1
+        if fired:
+            S.sig("sysfail", name, call, en)
+            involved = set(st.get("inject_fired_fds", []))
+            for c in S.conns.values():
+                if c.closed and not c.ended and not c.may_close and c.fd not in involved and c.accepted:
+                    S.v("conn/failing-system-call-dropped-an-uninvolved-connection", "%s after %s #%d -> %s (descriptors involved: %r)" % (c.name, call, nth, en, sorted(involved)))
+        probe(S, "")
+        st = S.close_all()
+        S.check_idle_baseline(st)
+        S.shutdown()
+        return [name, call, nth, en, "fired" if fired else "not reached"]
+    sim_case(case, res, body)
